@@ -38,6 +38,10 @@ func (rt *caseRT) snapMapping() *mapSnap {
 	if rt.mgr == nil {
 		return nil
 	}
+	// reading the assignment and stamping it is one step with respect to other snapshots: concurrent callers would
+	// otherwise stamp an older reading with a later clock and the stability clause would see a pair "disappear"
+	rt.snapMu.Lock()
+	defer rt.snapMu.Unlock()
 	sk, q, pairs, hs, ok := reader.VerifChannelAssignment(rt.mgr, rt.c.SrcPs, rt.c.DstPs)
 	if !ok {
 		return nil
